@@ -37,7 +37,7 @@ from hypothesis import strategies as st
 
 from vp.common import bootstrap
 from vp.common.bootstrap import HarnessError
-from vp.common.harness import Fail, GriffeRaised, call, digest, exc_fail
+from vp.common.harness import Fail, GriffeRaised, call, digest, exc_fail, griffe_frames
 from vp.gen import c06_graph
 
 ID = "C06"
@@ -278,6 +278,8 @@ class Session:
             return []
         except GriffeRaised as gr:
             gr.fail.kind = f"{kind}:{gr.fail.kind}"
+            if gr.__cause__ is not None and gr.fail.detail is None:
+                gr.fail.detail = {"frames": " < ".join(griffe_frames(gr.__cause__.__traceback__)[-40:])}
             return [gr.fail]
         except (HarnessError, AssertionError):
             raise
@@ -475,12 +477,13 @@ def _is_wildcard_born(case, fail: Fail) -> bool:
 
 def _is_late_expansion(case, fail: Fail) -> bool:
     """fixpoint fails and the second resolve_aliases call expanded a wildcard import that the first call had left in
-    place, *and* the source of every such wildcard could not be looked up when the first call started: the same
-    history is re-run in a fresh loader up to the failing step and `collection.get_member(<source path>)`, followed
-    by `.final_target` if that is an alias, must raise there (the source module is only provided by another expansion, or its package is only loaded during the first
-    call).  Wildcard expansion is one pass at the start of resolve_aliases, not part of the iteration.
-    A wildcard whose source can be looked up at that moment (a module, or an alias to a module) is expanded by the first
-    call on the pinned tree; if it is only expanded by the second call, that is not this finding."""
+    place (wildcard expansion is one pass at the start of resolve_aliases, not part of the iteration: a source that is
+    only provided or changed by another expansion, or whose package / whose importing package is only loaded during
+    the first call, is picked up by the next call).
+    NOT attributed: a wildcard whose source path named, when the first call started, an unresolved alias that could be
+    resolved to a module right then (`from pkg import impl as api` + `from pkg.api import *`): the pinned tree expands
+    that in the first call.  This is decided by re-running the history in a fresh loader up to the failing step and
+    looking the source of every late wildcard up there."""
     d = fail.detail or {}
     sources = d.get("late_sources") or {}
     if not (fail.clause == "fixpoint" and fail.kind.endswith(":late-wildcard-expansion") and sources):
@@ -501,13 +504,15 @@ def _is_late_expansion(case, fail: Fail) -> bool:
             try:
                 with time_limit(CALL_BUDGET_S):
                     found = collection.get_member(source)
-                    if found.is_alias:
-                        found.final_target  # noqa: B018  (an alias to a module whose package is not loaded yet does not count)
+                    if not (found.is_alias and not found.resolved):
+                        continue
+                    final = found.final_target  # an alias to a module whose package is not loaded yet raises here
             except (KeyError, *session.allowed):
                 continue
             except (Exception, CaseTimeout):  # noqa: BLE001
                 return False
-            return False  # reachable when the first call started
+            if final.is_module:
+                return False  # the source is a module alias that could be resolved when the first call started
         return True
     finally:
         session.close()
@@ -577,7 +582,22 @@ def _is_side_load_mutation(case, fail: Fail) -> bool:
     return fail.clause == "total" and fail.kind == "resolve:raises:RuntimeError@_griffe/loader.py:resolve_module_aliases"
 
 
-KNOWN = {K_SETRULE: _is_set_rule_stop, K_SIDELOAD_ITER: _is_side_load_mutation, K_WILDCARD: _is_wildcard_born, K_SINGLEPASS: _is_late_expansion, K_LEAK: _is_placeholder_leak}
+K_NSDIR = "init-less-subdirectory-behind-alias"
+
+
+def _is_initless_dir(case, fail: Fail) -> bool:
+    """load() raises an alias error and the graph has a package with p/s/a.py but no p/s/__init__.py whose __init__
+    binds the name `s` by an import: _get_or_create_parent_module finds the alias `p.s` as the parent of `p.s.a` and
+    reads `is_namespace_package` on it, which dereferences the (dangling or cyclic) alias."""
+    return (
+        fail.clause == "total"
+        and (":raises:AliasResolutionError@" in fail.kind or ":raises:CyclicAliasError@" in fail.kind)
+        and c06_graph.initless_dir_behind_import(case)
+        and "_get_or_create_parent_module" in ((fail.detail or {}).get("frames") or "")
+    )
+
+
+KNOWN = {K_NSDIR: _is_initless_dir, K_SETRULE: _is_set_rule_stop, K_SIDELOAD_ITER: _is_side_load_mutation, K_WILDCARD: _is_wildcard_born, K_SINGLEPASS: _is_late_expansion, K_LEAK: _is_placeholder_leak}
 STEERING = (K_WILDCARD, K_SINGLEPASS, K_LEAK)
 
 
